@@ -418,6 +418,29 @@ def check_case(case, cache: Optional[dict] = None) -> Tuple[List[Tuple[str, str]
                 return out + [("shape", f"result is not a list of rules: {type(e).__name__}: {e}")], info
             nf = compare_rules([(lkey(rule.lhs), absgraph(rule.rhs))], new_abs, orig_keys, orig_names, out)
             info["split"] = len(new) > 1
+            if len(new) > 1 and method == "min_fill":
+                # the documented `labels` argument: a caller-supplied set (also an EMPTY one) is the set that is consulted
+                # and extended, so that two calls sharing it never produce the same fresh name
+                for start in ("empty", "prefilled"):
+                    r1, EL1, _ = build_rule(case)
+                    r2, EL2, _ = build_rule(case)
+                    shared = set() if start == "empty" else {fggs.EdgeLabel(case["lhs"] + "_1", (), is_nonterminal=True)}
+                    taken = {l.name for l in shared}
+                    try:
+                        n1 = F.factorize_rule(r1, method=method, labels=shared)
+                        after1 = set(shared)
+                        n2 = F.factorize_rule(r2, method=method, labels=shared)
+                    except Exception as e:
+                        out.append((_exc_clause(e), f"factorize_rule(labels=<{start} set>) raised {type(e).__name__}: {e}"))
+                        break
+                    f1 = {r.lhs for r in n1 if r.lhs != r1.lhs}
+                    f2 = {r.lhs for r in n2 if r.lhs != r2.lhs}
+                    if not (f1 | {r1.lhs} | set(r1.rhs.edge_labels())) <= after1:
+                        out.append(("fresh_names", f"labels=<{start} set>: the caller's set was not extended by the call "
+                                                   f"(has {sorted(l.name for l in after1)}, fresh {sorted(l.name for l in f1)})"))
+                    clash = ({l.name for l in f1} & {l.name for l in f2}) | (({l.name for l in f1 | f2}) & taken)
+                    if clash:
+                        out.append(("fresh_names", f"labels=<{start} set> shared by two calls: fresh name(s) {sorted(clash)} produced twice / already taken"))
             return out, info
 
         G, allEL = build_grammar(case, fgg=(entry == "fgg"))
